@@ -497,7 +497,7 @@ func DateRangeFunc(query *Query, current Map, functionOptions *FunctionOptions, 
 	if args[1] != nil {
 		from = fmt.Sprintf("%v", args[1])
 	}
-	return []string{from, to}, nil
+	return []any{from, to}, nil
 }
 
 //	Constant
